@@ -19,7 +19,7 @@ RULE = ('case = device log table, a log configuration (0..26 variables over all 
         'create/append wire hash) for accepted configurations.')
 ASSUMPTIONS = ['firmware V2 block-creation layout: entries of (type:u8, id:u16); data packet = id, 24-bit timestamp, values',
                'for table variables the stored-type nibble may be the fetch type or the table type (the firmware ignores it)']
-REQUIRED = ['mon.configs_accepted', 'mon.configs_rejected', 'mon.create_messages', 'mon.append_messages',
+REQUIRED = ['mon.refused_configurations_started_again', 'mon.configs_accepted', 'mon.configs_rejected', 'mon.create_messages', 'mon.append_messages',
             'mon.data_packets_decoded', 'mon.flag_checks', 'mon.readd_checks', 'mon.synclogger_samples',
             'mon.rejected_then_readded_on_newer_firmware', 'mon.delivered_samples_rechecked_later',
             'mon.synclogger_first_sample_right_behind_start_ack',
@@ -227,6 +227,14 @@ def run(desc, ctx):
             blk = dev.blocks.get(lc.id)
             ob['flagchecks'].append((tag, lc.added, lc.started, blk is not None, bool(blk and blk.started)))
         flags('after-start')
+        if desc['errinj'] and any(n[0] == 'injected' and n[1] == 'create' for n in ob['notes']) and not lc.added and (desc['seed'] // 2) % 2 == 0:
+            # the application starts the refused configuration again (the device has room now)
+            try:
+                lc.start()
+            except Exception as e:  # noqa
+                ob['second_start_exc'] = repr(e)[:120]
+            s.sleep(0.1)
+            flags('after-second-start')
         blk = dev.blocks.get(lc.id)
         # ---- data packets (device encodes with what it parsed from the create/append messages)
         if blk is not None and blk.started:
@@ -423,6 +431,12 @@ def run(desc, ctx):
                 exp = (True, False)
             else:
                 exp = (True, True)
+        elif tag == 'after-second-start':
+            ctx.count('mon.refused_configurations_started_again')
+            exp = (True, True)
+            if not (dev_has and dev_started) or ob.get('second_start_exc'):
+                V('log:configuration-started-again-after-a-refusal-not-created-and-started-on-the-device',
+                  {'device_has_block': dev_has, 'device_started': dev_started, 'raised': ob.get('second_start_exc')})
         elif tag == 'after-stop':
             exp = (True, False) if not inj or inj[0][1] == 'start' else None
         elif tag == 'after-restart':
